@@ -17,7 +17,7 @@ LEAN = os.path.join(ROOT, "lean")
 HARNESS = os.path.join(ROOT, "harness")
 WORK = os.path.join(ROOT, "work")
 REPLAYS = os.path.join(ROOT, "replays")
-EVID = os.path.join(ROOT, "evidence")
+EVID = os.environ.get("VERIF_EVIDENCE_DIR") or os.path.join(ROOT, "evidence")  # seeded-change runs redirect this
 ALLOWED_AXIOMS = {"propext", "Quot.sound", "Classical.choice"}
 
 sys.path.insert(0, os.path.join(ROOT, "tools"))
